@@ -464,6 +464,24 @@ def ring_genes(rng, n, areas):
     return genes
 
 
+# regression corpus, run first: witnesses of the repaired finding F12 origin_spanning_area (several sections of the
+# sweep overlap the origin-spanning first one; the unrepaired create_regions merged only the last of them and raised
+# ValueError) - the recorded witness, the smallest layout found, three overlapping sections, the shape of C07-K1
+RING_CORPUS = [
+    (100, [(29, 42), (90, 99), (60, 24), (59, 77)]),
+    (100, [(43, 56), (32, 33), (51, 2)]),
+    (1000, [(700, 50), (710, 760), (800, 850), (990, 1000), (300, 400)]),
+    (1000, [(600, 40), (990, 1000), (610, 700), (100, 200), (699, 720), (20, 60)]),
+]
+# ... and of the repaired finding C06-K3 add_region_scan_stops_early (an origin-spanning new region sharing bases with a
+# region other than the first was accepted), with the neighbouring call that must be accepted
+ADD_REGION_CORPUS = [
+    (1000, [(50, 150), (400, 500), (800, 950), (900, 20)]),
+    (1000, [(50, 150), (400, 500), (800, 950), (950, 20), (940, 960)]),
+    (100, [(10, 20), (30, 40), (60, 70), (65, 5), (90, 15), (70, 10)]),
+]
+
+
 def run_rings(chk, rng, total, cases, impl_outs):
     """ fn 3: real circular (and a few linear) records, areas incl. origin-spanning ones added in supply order,
         create_regions, then a clear / re-create step; every outcome is judged by the independent ring oracle and
@@ -482,13 +500,19 @@ def run_rings(chk, rng, total, cases, impl_outs):
         chk.note_case(flat, observed is not None and any(len(c) + len(s) >= 2 for _, c, s, _ in observed),
                       {"step": "ring " + label, "length": n, "areas": areas, "implementation": out} if rng.random() < 0.002 else None)
 
+    corpus = [(n, list(areas), kinds) for n, areas in RING_CORPUS for kinds in (["sub"] * len(areas), ["cand"] * len(areas))]
     for _ in range(total):
-        n, areas = gen_ring_areas(rng)
-        circular = True
-        if not any(s >= e for s, e in areas) and rng.random() < 0.3:
-            circular = False
-        kinds = ring_kinds(rng, areas)
-        genes = ring_genes(rng, n, areas)
+        if corpus:
+            n, areas, kinds = corpus.pop(0)
+            circular, genes = True, []
+            chk.count("ring_corpus")
+        else:
+            n, areas = gen_ring_areas(rng)
+            circular = True
+            if not any(s >= e for s, e in areas) and rng.random() < 0.3:
+                circular = False
+            kinds = ring_kinds(rng, areas)
+            genes = ring_genes(rng, n, areas)
         try:
             flat, out, observed, record, objs = ring_case(n, circular, areas, kinds, genes)
         except Exception as exc:  # pylint: disable=broad-except
@@ -576,17 +600,46 @@ def run_rings_exhaustive(chk, cases, impl_outs, n=6):
     return pending
 
 
+def long_arc_components(areas, n):
+    """ the recorded class origin_spanning_long_arc, decided on the input alone: the connected components (of 'share
+        a base') that hold an origin-spanning area, do not cover the whole ring, and whose members - split the way
+        connect_locations splits them: an origin-spanning area into its part before and its part after the origin, any
+        other area to the side of the origin it lies nearer to - have hulls on the two sides that overlap;
+        connect_locations then answers with the hull of both, which is the whole record """
+    found = []
+    for comp in ring_components(areas, n):
+        if not any(areas[i][0] >= areas[i][1] for i in comp):
+            continue
+        if merged([x for m in comp for x in ring_parts(areas[m], n)]) == [[0, n]]:
+            continue
+        pre, post = [], []
+        for i in comp:
+            s, e = areas[i]
+            if s >= e:
+                pre.append(s)
+                post.append(e)
+            elif s < n - e:
+                post.append(e)
+            else:
+                pre.append(s)
+        if min(pre) < max(post):
+            found.append(comp)
+    return found
+
+
 def ring_class(item):
-    """ which recorded class a failing outcome belongs to (None: none) """
+    """ which recorded class a failing outcome belongs to (None: none).  After the repair of origin_spanning_area the
+        only recorded class is origin_spanning_long_arc: the layout has a long-arc component (long_arc_components) and
+        the outcome has the recorded shape - a region that is the whole record, or ValueError because that whole-record
+        location overlaps another region """
+    n = item["n"]
     if not any(s >= e for s, e in item["areas"]):
         return None
+    if not long_arc_components(item["areas"], n):
+        return None
     if item["observed"] is None:
-        return "origin_spanning_area"
-    n = item["n"]
-    # a region is the whole record although no connected component of the areas covers the whole ring
-    whole_component = any(merged([x for m in comp for x in ring_parts(item["areas"][m], n)]) == [[0, n]]
-                          for comp in ring_components(item["areas"], n))
-    if not whole_component and any(parts == [(0, n)] for parts, _, _, _ in item["observed"]):
+        return "origin_spanning_long_arc" if item["impl"] == [1, 1] else None
+    if any(parts == [(0, n)] for parts, _, _, _ in item["observed"]):
         return "origin_spanning_long_arc"
     return None
 
@@ -611,33 +664,44 @@ def decide_rings(chk, pending, model_outs):
 
 
 
+def gen_add_region_history(rng):
+    n = rng.choice([100, 1000])
+    circular = rng.random() < 0.6
+    news = []
+    if circular and rng.random() < 0.5:
+        news.append((rng.randrange(n // 2, n), rng.randrange(1, n // 3)))
+    for _ in range(rng.choice([2, 3, 4, 6, 8])):
+        if circular and rng.random() < 0.15:
+            s = rng.randrange(n // 2, n)
+            news.append((s, rng.randrange(1, min(s, n // 3) + 1)))
+            continue
+        if news and rng.random() < 0.5:
+            a = rng.choice([x for pair in news for x in pair]) + rng.choice([-10, -1, 0, 1, 10])
+            s = max(0, min(n - 1, a - rng.choice([0, 1, 5, 20])))
+            e = max(s + 1, min(n, a + rng.choice([0, 1, 5, 20])))
+        else:
+            s = rng.randrange(0, n - 1)
+            e = min(n, s + rng.choice([1, 5, 20, n // 5]))
+        news.append((s, e))
+    if circular and rng.random() < 0.5:
+        rng.shuffle(news)
+    return n, circular, news
+
+
 def run_add_region(chk, rng, total, cases, impl_outs):
     """ fn 4: histories of Record.add_region(Region(subregions=[x])) on linear and circular records; every call is
         either accepted or refused with ValueError.  Independent oracle: refused iff the new region shares a base
         with a region of the record; the list stays in location order and numbered 1..n. """
     from antismash.common.secmet.features import Region
     pending = []
+    corpus = list(ADD_REGION_CORPUS)
     for _ in range(total):
-        n = rng.choice([100, 1000])
-        circular = rng.random() < 0.6
-        news = []
-        if circular and rng.random() < 0.5:
-            news.append((rng.randrange(n // 2, n), rng.randrange(1, n // 3)))
-        for _ in range(rng.choice([2, 3, 4, 6, 8])):
-            if circular and rng.random() < 0.15:
-                s = rng.randrange(n // 2, n)
-                news.append((s, rng.randrange(1, min(s, n // 3) + 1)))
-                continue
-            if news and rng.random() < 0.5:
-                a = rng.choice([x for pair in news for x in pair]) + rng.choice([-10, -1, 0, 1, 10])
-                s = max(0, min(n - 1, a - rng.choice([0, 1, 5, 20])))
-                e = max(s + 1, min(n, a + rng.choice([0, 1, 5, 20])))
-            else:
-                s = rng.randrange(0, n - 1)
-                e = min(n, s + rng.choice([1, 5, 20, n // 5]))
-            news.append((s, e))
-        if circular and rng.random() < 0.5:
-            rng.shuffle(news)
+        if corpus:
+            n, news = corpus.pop(0)
+            news, circular = list(news), True
+            chk.count("add_region_corpus")
+        else:
+            n, circular, news = gen_add_region_history(rng)
         record = build_record(n, circular, [])
         flat = [PROP, 4, n, len(news)]
         flags, steps, index_of = [], [], {}
@@ -663,8 +727,7 @@ def run_add_region(chk, rng, total, cases, impl_outs):
                         failure = "region numbers do not identify the regions"
                 if any(not sort_key(a.location) <= sort_key(b.location) for a, b in zip(regions, regions[1:])):
                     failure = "regions are out of location order"
-            steps.append({"new": (s, e), "accepted": flags[-1] == 0, "failure": failure,
-                          "in_class": failure is not None and expected_refusal and s >= e})
+            steps.append({"new": (s, e), "accepted": flags[-1] == 0, "failure": failure})
         observed = observe_ring(record, index_of)
         out = [len(flags)] + flags + enc_regions(observed)[1:]
         cases.append(flat)
@@ -678,18 +741,14 @@ def run_add_region(chk, rng, total, cases, impl_outs):
 
 
 def decide_add_region(chk, pending, model_outs):
-    known = known_classes()
+    """ no class of add_region failures is recorded (C06-K3 add_region_scan_stops_early is repaired): every failure of
+        the independent oracle is a violation """
     for item in pending:
         failing = [st for st in item["steps"] if st["failure"]]
         if not failing:
             continue
-        if all(st["in_class"] for st in failing) and "add_region_scan_stops_early" in known \
-                and model_outs[item["index"]] == item["impl"]:
-            chk.count("known_class_add_region_scan_stops_early")
-            continue
-        first = [st for st in failing if not st["in_class"]] or failing
-        chk.violation("counterexample", "add_region: " + first[0]["failure"],
-                      {"theorem_or_correspondence": "C06_add_region_rejects_overlap (independent oracle on the implementation's outcome)",
+        chk.violation("counterexample", "add_region: " + failing[0]["failure"],
+                      {"theorem_or_correspondence": "C06_add_region_rejects_overlap_ring (independent oracle on the implementation's outcome)",
                        "input": {"length": item["n"], "circular": item["circular"], "add_region_calls": item["news"]},
                        "steps": item["steps"], "implementation": item["impl"], "model": model_outs[item["index"]]})
 
@@ -803,8 +862,8 @@ def run_links(chk, rng, total, cases, impl_outs):
 
 
 def known_findings(chk):
-    """ recorded, unrepaired defects: printed only while the stored witness still reproduces """
-    from antismash.common.secmet.features import Region
+    """ recorded, unrepaired defects: printed only while the stored witness still reproduces (the witnesses of the
+        repaired F12 origin_spanning_area and C06-K3 add_region_scan_stops_early are in the regression corpus) """
     from antismash.common.secmet.test.helpers import DummyRecord, DummySubRegion
     for finding in common.load_known_findings("C06"):
         if finding["status"] != "known":
@@ -813,27 +872,11 @@ def known_findings(chk):
         n = w["length"]
         record = DummyRecord(seq="A" * n, circular=w["circular"])
         try:
-            if finding["class"] == "origin_spanning_area":
-                try:
-                    for s, e in w["subregions"]:
-                        record.add_subregion(DummySubRegion(s, e, record_length=n))
-                    record.create_regions()
-                except ValueError as exc:
-                    if "regions cannot overlap" in str(exc):
-                        chk.known(finding["what_fails"])
-            elif finding["class"] == "origin_spanning_long_arc":
+            if finding["class"] == "origin_spanning_long_arc":
                 for s, e in w["subregions"]:
                     record.add_subregion(DummySubRegion(s, e, record_length=n))
                 record.create_regions()
                 if any(loc_parts(r.location) == [(0, n)] for r in record.get_regions()):
-                    chk.known(finding["what_fails"])
-            elif finding["class"] == "add_region_scan_stops_early":
-                for s, e in w["regions"]:
-                    record.add_region(Region(subregions=[DummySubRegion(s, e, record_length=n)]))
-                record.add_region(Region(subregions=[DummySubRegion(*w["new_region"], record_length=n)]))
-                regions = record.get_regions()
-                if any(parts_share_base(loc_parts(a.location), loc_parts(b.location))
-                       for i, a in enumerate(regions) for b in regions[i + 1:]):
                     chk.known(finding["what_fails"])
         except Exception:  # pylint: disable=broad-except
             pass          # the witness no longer behaves as recorded: nothing is printed, nothing is suppressed by this
